@@ -206,6 +206,37 @@ def oracle_invariance(ck, tier, deep):
         if a.shape != b.shape or not (np.abs(a - b)[:, good].max() <= 1e-6 * max(1.0, np.abs(a[:, good]).max())):
             ck.violation(dict(site="Distributions", clause="weight-scaling"), rep,
                          f"weights x {s:g} (order {order}, odd={odd}): results differ by {np.abs(a - b)[:, good].max() if a.shape == b.shape else 'shape'}")
+    # … and at the lower orders for any positive factor at all: the 2x2 / 3x3 inverses are written out by hand, with determinants that
+    # are quadratic / cubic in the weights (repair F64: they under- or overflowed for factors like 1e-105 and 1e+105 — NaN results or
+    # radii wrongly declared degenerate), as is the single-term case
+    lattice = [1e-160, 1e-120, 1e-105, 1e-75, 1e-40, 1e40, 1e75, 1e100] if not deep else \
+        [10.0 ** e for e in (-300, -200, -160, -140, -120, -105, -90, -75, -60, -40, -25, 25, 40, 60, 75, 90, 100)]
+    for order, odd in ((0, False), (1, True), (2, False), (2, True), (4, False)):
+        n = 41
+        im = rng.random((n, n))
+        wt = rng.uniform(1, 2, size=(n, n))
+        for method in ("nearest", "linear", "remap"):
+            for origin, rmax in (("cc", 15), ("ul", "MIN")):
+                try:
+                    a = quiet(Distributions(origin=origin, rmax=rmax, order=order, odd=odd, weights=wt, method=method).image, im).cos()
+                except Exception as e:
+                    ck.violation(dict(site="Distributions", clause="exception"), dict(order=order, odd=odd, method=method, origin=origin), f"{type(e).__name__}: {e}")
+                    continue
+                for s_ in lattice:
+                    if order >= 3 and not 1e-80 < s_ < 1e80:
+                        continue
+                    ck.count(("S.inv-scale-extreme", order, odd, method, origin, s_), suite="S.invariances")
+                    rep = dict(shape=[n, n], order=order, odd=odd, method=method, origin=origin, weight_scale=s_)
+                    try:
+                        b = quiet(Distributions(origin=origin, rmax=rmax, order=order, odd=odd, weights=wt * s_, method=method).image, im).cos()
+                    except Exception as e:
+                        ck.violation(dict(site="Distributions", clause="exception"), rep, f"{type(e).__name__}: {e}")
+                        continue
+                    good = slice(max(6, 3 * order), None)
+                    if a.shape != b.shape or not (np.abs(a - b)[:, good].max() <= 1e-6 * max(1.0, np.abs(a[:, good]).max())):
+                        ck.violation(dict(site="Distributions", clause="weight-scaling-extreme"), rep,
+                                     f"weights x {s_:g} (order {order}, odd={odd}, {method}, origin {origin}): results differ by "
+                                     f"{np.abs(a - b)[:, good].max() if a.shape == b.shape else 'shape'}")
     # the same invariances where no folding happens (origin in a corner or on an edge), up to rmax='all', with and without weights,
     # and for the same pixels stored column-major (transposed views, np.rot90, Fortran/MATLAB data): layout is not part of the image
     for it in range(60 if not deep else 600):
